@@ -113,3 +113,104 @@ def source_tie(chk, cases, outs):
                     "disagreeing_cases": len(bad),
                     "correspondence": "tie:C11:py2coq+MiniPy.Interp:" + what,
                     "theorems_at_stake": SRC_THEOREMS}, no_failing_input=True)
+
+
+# ---------------------------------------------------------------------------------------------------------------
+# second tie (unit C11BSrc): write_trn (whole function + its helper _handle_x), write_textgrid (whole function, both
+# entry points) and the path branches of read_ctm / write_ctm, interpreted inside Coq (PV.C11.SrcRunB.src_check_*)
+# on the trn / tg / ctm cases of the run, against the bytes / values the implementation produced.
+# ---------------------------------------------------------------------------------------------------------------
+IMPORTS_SRCB = "From PV Require C11.ModelB C11.SrcRunB.\n"
+SRCB_THEOREMS = ["c11_source_handle_x_is_model", "c11_source_write_trn_is_model", "c11_source_write_trn_path_is_model",
+                 "c11_source_trn_roundtrip"]
+
+
+def _tops_term(c11, case):
+    """the transcripts as write_trn is given them by impl_trn (py_elem): bare tokens, (token, 0.5, 1.25) with `times`,
+    top-level alternates as (alts, -1, -1)"""
+    times = bool(case.get("times", False))
+
+    def top(x):
+        if isinstance(x, str):
+            if times:
+                return f"ModelB.TTimed (Tok {c11.cs(x)}) (ModelB.NQ (1 # 2)) (ModelB.NQ (5 # 4))"
+            return f"ModelB.TBare {c11.cs(x)}"
+        return f"ModelB.TTimed ({c11.coq_elem(x)}) (ModelB.NInt (-1)) (ModelB.NInt (-1))"
+    return cl([cp(c11.cs(u), cl([top(x) for x in tr])) for u, tr in case["ts"]])
+
+
+def srcB_terms(c11, case, out):
+    k = case["kind"]
+    res = []
+    if k == "trn":
+        T = _tops_term(c11, case)
+        if out.get("w_file_exc") is None:
+            res.append(("write_trn", f"SrcRunB.src_check_write_trn false {T} {c11.cs(out['w_file'])}"))
+        if out.get("w_path") is not None and out.get("w_path_exc") is None:
+            res.append(("write_trn(path)", f"SrcRunB.src_check_write_trn true {T} {c11.cs(out['w_path'])}"))
+    elif k == "tg":
+        wf = c11.cres(out["w_exc"], c11.cs(out["w_file"]) if out["w_exc"] is None else None)
+        if wf:
+            res.append(("write_textgrid", f"{c11.coq_tg_call('SrcRunB.src_check_write_textgrid false', case)} {wf}"))
+        wp = c11.cres(out["w_path_exc"], c11.cs(out["w_path"]) if out["w_path_exc"] is None else None)
+        if wp:
+            res.append(("write_textgrid(path)", f"{c11.coq_tg_call('SrcRunB.src_check_write_textgrid true', case)} {wp}"))
+    elif k == "ctm":
+        T, M = c11.coq_ctm_ts(case), c11.coq_utt2wc(case)
+        if out["w_path_exc"] is not None:
+            w, segs = c11.cres(out["w_path_exc"], None), None
+        else:
+            segs = c11.parse_ctm_text(out["w_path"])
+            w = c11.cres(None, c11.coq_segs(segs)) if segs is not None else None
+        if w:
+            res.append(("write_ctm(path)", f"SrcRunB.src_check_write_ctm_path {T} {M} {w}"))
+        if segs is not None and "r_path" in out:
+            rd = c11.coq_ctm_read(*out["r_path"])
+            if rd:
+                res.append(("read_ctm(path)",
+                            f"SrcRunB.src_check_read_ctm_path {c11.coq_segs(segs)} {c11.coq_wc2utt(case)} {rd}"))
+    return res
+
+
+def source_tieB(chk, cases, outs):
+    from vlib import CoqError
+    from props import c11
+    chk.extra["source_tie_B"] = {
+        "unit": "C11BSrc (harness/py2coq/units/C11BSrc.json)", "coq": "PV.C11.SrcRunB / PV.C11.TieB*",
+        "what": "write_trn with _handle_x and write_textgrid (whole functions, open-file and path entry points), "
+                "path branches of read_ctm / write_ctm",
+        "theorems": SRCB_THEOREMS}
+    items = []
+    for i, (c, o) in enumerate(zip(cases, outs)):
+        if c["kind"] not in ("trn", "tg", "ctm") or not isinstance(o, dict) or "harness_exception" in o:
+            continue
+        try:
+            for what, t in srcB_terms(c11, c, o):
+                items.append((i, what, t))
+        except (KeyError, TypeError, ValueError):
+            continue
+    if not items:
+        chk.extra["source_tie_B_run"] = {"cases": 0, "disagreements": 0}
+        return
+    t0 = time.time()
+    try:
+        res = coq_eval_bools(chk.workdir, c11.IMPORTS + IMPORTS_SRCB, [t for _, _, t in items], shard=120, tag="srcB")
+    except CoqError as e:
+        chk.extra["source_tie_B_run"] = "not evaluated: " + str(e)[-400:]
+        return
+    bad = [items[j] for j, ok in enumerate(res) if not ok]
+    per = {}
+    for _, what, _ in items:
+        per[what] = per.get(what, 0) + 1
+    chk.extra["source_tie_B_run"] = {"cases": len(items), "disagreements": len(bad), "wall_s": round(time.time() - t0, 1),
+                                     "per_function": per}
+    chk.count("source_tie_cases", len(items))
+    if bad:
+        i, what, t = bad[0]
+        chk.report({"case": cases[i], "impl": c11._jsonable(outs[i]), "function": what, "term": t[:1500],
+                    "what": "the Python source of " + what + " as translated to MiniPy and interpreted in Coq (PV.C11.SrcRunB, "
+                            "extB / extC) does not reproduce the implementation's output: translator / interpreter / ext no "
+                            "longer describe the code",
+                    "disagreeing_cases": len(bad),
+                    "correspondence": "tie:C11:py2coq+MiniPy.Interp:" + what,
+                    "theorems_at_stake": SRCB_THEOREMS}, no_failing_input=True)
